@@ -123,7 +123,20 @@ type Engine struct {
 	localQ   int
 
 	nDecisions, nCachedSat, nCachedUnsat int64
+	pcSet map[[2]uint64]bool // terms already in the path condition
 }
+
+// addPC appends a term to the path condition (once).
+func (e *Engine) addPC(t *Term) {
+	k := [2]uint64{t.h1, t.h2}
+	if e.pcSet[k] {
+		return
+	}
+	e.pcSet[k] = true
+	e.pc = append(e.pc, t)
+}
+
+func (e *Engine) inPC(t *Term) bool { return e.pcSet[[2]uint64{t.h1, t.h2}] }
 
 type pathAbort struct{ why string }
 
@@ -232,6 +245,7 @@ func (e *Engine) query(extra *Term, wantModel bool, timeoutMs int) (string, map[
 	}
 	if timeoutMs > 0 {
 		s.send(fmt.Sprintf("(set-option :timeout %d)", timeoutMs))
+		s.budget = time.Duration(timeoutMs)*time.Millisecond + 5*time.Second
 	}
 	r, d := s.Check()
 	e.note(r, string(s.Kind), d)
@@ -306,6 +320,13 @@ func (e *Engine) decide(c *Term) bool {
 	if c.IsConst() {
 		return c.Val == 1
 	}
+	// already decided on this path (loops re-evaluate the same condition)
+	if e.inPC(c) {
+		return true
+	}
+	if e.inPC(Not(c)) {
+		return false
+	}
 	var d bool
 	if e.pos < len(e.log) {
 		d = e.log[e.pos].B
@@ -330,9 +351,9 @@ func (e *Engine) decide(c *Term) bool {
 	}
 	e.pos++
 	if d {
-		e.pc = append(e.pc, c)
+		e.addPC(c)
 	} else {
-		e.pc = append(e.pc, Not(c))
+		e.addPC(Not(c))
 	}
 	e.nDecisions++
 	return d
@@ -377,10 +398,10 @@ func (e *Engine) concretize(t *Term, what string) uint64 {
 		e.pos++
 		eq := Eq(t, konst(t.Sort, cand))
 		if d {
-			e.pc = append(e.pc, eq)
+			e.addPC(eq)
 			return cand
 		}
-		e.pc = append(e.pc, Not(eq))
+		e.addPC(Not(eq))
 	}
 }
 
@@ -419,7 +440,7 @@ func (e *Engine) assume(v value) {
 			panic(pathAbort{"assume infeasible"})
 		}
 	}
-	e.pc = append(e.pc, c)
+	e.addPC(c)
 }
 
 func (e *Engine) choices(m map[string]uint64) map[string]uint64 {
@@ -511,7 +532,7 @@ func (e *Engine) assert(v value, label string) {
 	if r == "sat" {
 		e.report("assert", label, m, "")
 	}
-	e.pc = append(e.pc, c)
+	e.addPC(c)
 }
 
 // truth converts a branch condition to a Go bool, forking if symbolic.
@@ -535,6 +556,7 @@ func (e *Engine) runPath(prefix []dec) {
 	e.log = prefix
 	e.pos = 0
 	e.pc = e.pc[:0]
+	e.pcSet = map[[2]uint64]bool{}
 	e.vars = e.vars[:0]
 	e.varSeen = map[string]bool{}
 	e.chooses = map[string]bool{}
